@@ -140,10 +140,15 @@ class Ctx:
                 self.cuts.append(c)
 
 
+_CURRENT = None  # the Result the running worker created last (lets _guard see how far an instance got when it raises)
+
+
 class Result:
     """Per-instance (worker-side) accumulator; plain data so it crosses processes."""
 
     def __init__(self, instance):
+        global _CURRENT
+        _CURRENT = self
         self.instance = str(instance)
         self.d = dict(
             key=str(instance)[:200],
@@ -243,6 +248,7 @@ def _jsonable(x):
 
 
 def _guard(func, it):
+    cur0 = _CURRENT
     try:
         t = time.time()
         out = func(it)
@@ -258,10 +264,48 @@ def _guard(func, it):
                         c["inputs"]["_history"] = hist
         _WORKER_HISTORY.append(it)
         return out
-    except Exception:
-        r = Result(it)
-        r.herr("worker raised: " + traceback.format_exc()[-1500:])
+    except Exception as e:
+        return _worker_exception(it, e, _CURRENT if _CURRENT is not None and cur0 is not _CURRENT else None)
+
+
+def exception_origin(e):
+    """'library' if the exception was raised while library code (REPO/src) was on the stack and the innermost frame is
+    not harness code; 'harness' otherwise."""
+    src = os.path.realpath(os.path.join(REPO, "src"))
+    frames = traceback.extract_tb(e.__traceback__)
+    if not frames:
+        return "harness"
+    files = [os.path.realpath(f.filename) for f in frames]
+    has_lib = any(f.startswith(src) for f in files)
+    innermost_is_harness = files[-1].startswith(os.path.realpath(VERIF))
+    return "library" if has_lib and not innermost_is_harness else "harness"
+
+
+def _worker_exception(it, e, cur):
+    """An instance raised. Harness code at fault -> harness error. The LIBRARY raised: on a ground instance (no symbolic
+    value, no stub in play) that is a finding to be replayed; on a symbolic instance the run is inconclusive (the code
+    under test may simply not be executable on shadow values after a change) - never a verdict, never a broken check."""
+    text = traceback.format_exc()[-1500:]
+    r = Result(it)
+    if cur is not None:
+        r.instance = cur.instance
+        r.d["key"] = cur.d.get("key", r.d["key"])
+        for k in ("ground_instances", "instances", "functions", "cuts"):
+            r.d[k] = cur.d[k]
+    if exception_origin(e) == "harness":
+        r.herr("worker raised: " + text)
         return r.as_dict()
+    what = f"the library raised {type(e).__name__}: {str(e)[:160]}"
+    if r.d["ground_instances"] > 0 and _jsonable(it):
+        r.ob(1)
+        r.d["candidates"].append({
+            "key": r.instance + ":raises", "clause": "library-raises", "what": what,
+            "inputs": {"_raised": type(e).__name__, "_item": it, "_history": [h for h in _WORKER_HISTORY[-HISTORY_CAP:] if _jsonable(h)], "clause": "library-raises"},
+        })
+    else:
+        r.ob(1)
+        r.inconc(what + " (symbolic instance: not executable, no verdict)")
+    return r.as_dict()
 
 
 class _Guard:
